@@ -53,6 +53,7 @@ func c06RequestFor(v *idprespVec) *idpreqVec {
 	if v.In.Alias {
 		q.In.Iss = "alias"
 	}
+	q.In.Subj = v.In.ReqSubj
 	return q
 }
 
